@@ -46,6 +46,14 @@ def run_case(case):
     try:
         ds = _impl["Dataset"].from_raw_list(am.raw_dataset(case["D"]))
         ss = _impl["SS"](core.scheme_float(B, T, unit))
+        if case.get("prevD"):
+            # an earlier dataset (other shape, same flattened positions) served in the same process, same scheme
+            try:
+                pds = _impl["Dataset"].from_raw_list(core.Absmap(case["naming"], case["prevD"]).raw_dataset(case["prevD"]))
+                _impl["P"].pairwise_cost_matrix(pds.get_positions(), ss)
+                _impl["P"].pairwise_cost_matrix(pds.get_bucket_ids(), ss)
+            except Exception:
+                pass
         if case.get("ops"):
             # history: the matrices and the table are computed once, the dataset is modified in place, then measured
             _impl["P"].pairwise_cost_matrix(ds.get_positions(), ss)
@@ -77,7 +85,14 @@ def run_case(case):
                         tab[x - 1][y - 1][k] = v
             return tab
         rec["tabP"] = table(_impl["P"].pairwise_cost_matrix(ds.get_positions(), ss))
+        # the same table as handed over by the other entry points (graph builders), and from bucket ids
+        t2 = table(_impl["P"].graph_of_elements(ds.get_positions(), ss)[1])
+        t3 = table(_impl["P"].graph_of_elements_with_robust_arcs(ds.get_positions(), ss)[1])
         rec["tabB"] = table(_impl["P"].pairwise_cost_matrix(ds.get_bucket_ids(), ss))
+        if t2 != rec["tabP"]:
+            rec["tabB"] = t2          # a difference is reported by the "same table" clause
+        elif t3 != rec["tabP"]:
+            rec["tabB"] = t3
         kcf = _impl["K"](ss)
         cs = []
         if len(U) <= 4:
@@ -127,7 +142,7 @@ def models(tier):
 
 def stages(tier, rng, only=None):
     sch = ac.PRESET + PROBES + [m for s in (ac.P_UNI1, ac.P_PSE1, ac.P_IND1, ac.P_EXT) for m in ac.multiples(s, ks=(2,))]
-    nm = ["ints", "letters", "collide"]
+    nm = ["ints", "letters", "collide", "neg", "weird"]
     out = [Stage("grid3x2", "Trace_Cost", run_case, lambda: _cases(grids.datasets(3, 2), sch, nm, True), _nt, _init)]
     n_rand = 500 if tier == "quick" else 5000
     sch2 = sch + ac.grid_sample(rng, 12)
@@ -138,6 +153,9 @@ def stages(tier, rng, only=None):
                                         sch), _nt, _init))
     out.append(Stage("larger", "Trace_Cost", run_case,
                      lambda: _cases([ac.larger_dataset(rng) for _ in range(n_rand // 3)], sch2, nm, False), _nt, _init))
+    out.append(Stage("transposed_pairs", "Trace_Cost", run_case,
+                     lambda: [{"D": B, "prevD": A, "naming": "ints", "sch": list(sch[k % len(sch)])}
+                              for k, (A, B) in enumerate(ac.transposed_pairs())], _nt, _init))
     if tier == "thorough":
         out.append(Stage("grid3x3", "Trace_Cost", run_case, lambda: _cases(grids.datasets(3, 3), sch2, nm, False),
                          _nt, _init))
